@@ -24,6 +24,7 @@ import (
 	"os/exec"
 	"path/filepath"
 	"runtime"
+	"sort"
 	"strconv"
 	"strings"
 	"sync"
@@ -149,6 +150,15 @@ func vmDigest(vm *bondmachine.VM) string {
 	return hex.EncodeToString(h.Sum(nil)[:8])
 }
 
+// reportingBox is a simulation box that asks every processor for its register and port dumps.
+func reportingBox() *simbox.Simbox {
+	sb := new(simbox.Simbox)
+	for _, rule := range []string{"config:show_proc_regs_pre", "config:show_proc_io_pre"} {
+		sb.Add(rule)
+	}
+	return sb
+}
+
 // tickLoop runs n ticks under the environment protocol of the simulation loops and returns the
 // digest after each tick.
 func tickLoop(vm *bondmachine.VM, n int, each func(t int, d string)) error {
@@ -158,13 +168,19 @@ func tickLoop(vm *bondmachine.VM, n int, each func(t int, d string)) error {
 				vm.InputsValid[i] = false
 			}
 		}
-		if _, err := vm.Step(nil); err != nil {
+		text, err := vm.Step(nil)
+		if err != nil {
 			return err
 		}
 		for i, v := range vm.OutputsValid {
 			vm.OutputsRecv[i] = v
 		}
-		each(t, vmDigest(vm))
+		// what the processors reported in this tick (register and port dumps, when the simulation box asks
+		// for them) belongs to the outcome; the order in which the workers hand their lines over does not
+		lines := strings.Split(text, "\n")
+		sort.Strings(lines)
+		h := sha1.Sum([]byte(strings.Join(lines, "\n")))
+		each(t, vmDigest(vm)+"/"+hex.EncodeToString(h[:4]))
 	}
 	return nil
 }
@@ -222,7 +238,9 @@ func c09Child(outPath string) int {
 			fmt.Fprintln(os.Stderr, "build", m.name, err)
 			return 2
 		}
+		startVMRules = []string{"config:show_proc_regs_pre", "config:show_proc_io_pre"}
 		vm, err := startVM(bm, nil)
+		startVMRules = nil
 		if err != nil {
 			fmt.Fprintln(os.Stderr, err)
 			return 2
@@ -272,7 +290,7 @@ func c09Child(outPath string) int {
 			wg.Add(1)
 			go func(i int, vm *bondmachine.VM) {
 				defer wg.Done()
-				if err := vm.Launch_processors(new(simbox.Simbox)); err != nil {
+				if err := vm.Launch_processors(reportingBox()); err != nil {
 					okAll = false
 					return
 				}
@@ -345,14 +363,14 @@ func runFork(machines []schedMachine, refs map[string][]string, ticks int, mu *s
 			return vm
 		}
 		orig := mk()
-		if orig == nil || orig.Launch_processors(new(simbox.Simbox)) != nil {
+		if orig == nil || orig.Launch_processors(reportingBox()) != nil {
 			return false
 		}
 		if err := tickLoop(orig, forkAt, func(int, string) {}); err != nil {
 			return false
 		}
 		fork := mk()
-		if fork == nil || fork.CopyState(orig) != nil || fork.Launch_processors(new(simbox.Simbox)) != nil {
+		if fork == nil || fork.CopyState(orig) != nil || fork.Launch_processors(reportingBox()) != nil {
 			return false
 		}
 		mu.Lock()
